@@ -27,10 +27,16 @@ def rewrite(h, mapping):
             return rewrite(mapping[h], rest) if rest else mapping[h]
     except TypeError:
         pass
+    # a PEP 695 alias is transparent: it stands for its value, occurrences inside it count
+    TAT = getattr(typing, 'TypeAliasType', None)
+    if TAT is not None and isinstance(h, TAT):
+        return rewrite(h.__value__, mapping)
     origin = typing.get_origin(h)
     if origin is None:
         return h
     args = typing.get_args(h)
+    if TAT is not None and isinstance(origin, TAT):
+        return rewrite(refsem._subst(origin.__value__, dict(zip(origin.__type_params__, args))), mapping)
     if origin is Literal:
         return h
     if origin is Annotated:
@@ -58,6 +64,8 @@ OVERRIDE_SETS = [
     # chained overrides: the replacement of one key mentions another key
     [['int', 'int|str'], ['str', 'str|bytes']], [['UA', 'UA|None'], ['None', 'int']],
     [['bytes', 'str|bytes'], ['str', 'int|str']],
+    # a replacement union wider than the union the key sits in
+    [['UA', 'int|str|bytes']], [['UA', 'UA|int|str|None']], [['bytes', 'int|str|bytes']],
 ]
 
 
@@ -116,6 +124,11 @@ def _mentions(h, target):
         pass
     if typing.get_origin(h) is Literal:
         return False
+    TAT = getattr(typing, 'TypeAliasType', None)
+    if TAT is not None and isinstance(h, TAT):
+        return _mentions(h.__value__, target)
+    if TAT is not None and isinstance(typing.get_origin(h), TAT):
+        return _mentions(typing.get_origin(h).__value__, target) or any(_mentions(a, target) for a in typing.get_args(h))
     return any(_mentions(a, target) for a in typing.get_args(h) if a is not Ellipsis and not isinstance(a, list))
 
 
